@@ -701,14 +701,20 @@ impl Sys for Swarm {
             }
         }
         // the session must still be responsive: the rotation timer makes the loop iterate
+        // (whatever its period: up to two minutes of virtual time are allowed for one iteration)
         let before = w.snap().map(|s| s.loop_iterations).unwrap_or(0);
-        w.step(&FEv::Advance(10_000));
-        let after = w.snap().map(|s| s.loop_iterations).unwrap_or(0);
-        if let Some(v) = self.health(w) {
-            return Some(v);
+        let mut after = before;
+        let mut waited = 0;
+        while after <= before && waited < 120 {
+            w.step(&FEv::Advance(10_000));
+            waited += 10;
+            after = w.snap().map(|s| s.loop_iterations).unwrap_or(0);
+            if let Some(v) = self.health(w) {
+                return Some(v);
+            }
         }
         if after <= before {
-            return Some(("session-wedged-after-completion", format!("event loop iterations {} -> {} over 10 s", before, after)));
+            return Some(("session-wedged-after-completion", format!("event loop iterations {} -> {} over {} s", before, after, waited)));
         }
         None
     }
